@@ -55,6 +55,7 @@ def make_executor_class():
             self.mismatches = []
             self.by_array = {}
             self.errors = []
+            self.region_errors = []
             self.ops = []
             self.stop_on_mismatch = stop_on_mismatch
 
@@ -100,7 +101,10 @@ def make_executor_class():
                     sl = key_to_slices(coords, wp.array, wp.chunks)
                     region = tuple(int(s.stop - s.start) for s in sl)
                 except Exception as e:  # noqa: BLE001
-                    region = "error:" + repr(e)[:80]
+                    # the stage function computes the same region and fails the same way: the task raises (loudly),
+                    # nothing is written -- not a block/region mismatch
+                    self.region_errors.append((opname, aname, coords, repr(e)[:80]))
+                    continue
                 fields = shp.items() if isinstance(shp, dict) else [(None, shp)]
                 first = True
                 for field, bs in fields:
